@@ -139,6 +139,24 @@ class Ctx:
         self.cov["transitions"] += r.generated
         return rejects
 
+    def evaluate(self, module: str, cases: list, *, name="cases", timeout=900, heap="8g"):
+        """Evaluator mode (spec -> code): TLC evaluates the spec's Expect(case) for every case and
+        serialises the result; returns the list of expectations (same order)."""
+        cpath = self.scratch / f"{name}_in.json"
+        opath = self.scratch / f"{name}_out.json"
+        with open(cpath, "w") as f:
+            json.dump(jsonable(cases), f)
+        r = T.run_tlc(module, f"{module}.cfg", workdir=self.scratch, workers=1, timeout=timeout, heap=heap,
+                      env={"CASES_FILE": str(cpath), "OUT_FILE": str(opath)})
+        if r.error or r.violated or not opath.exists():
+            raise MachineryError(f"evaluator {module} failed: {r.error}\n{r.out[-2000:]}")
+        out = json.loads(opath.read_text())
+        if len(out) != len(cases):
+            raise MachineryError(f"evaluator {module}: {len(out)} results for {len(cases)} cases")
+        self.cov["tlc_runs"].append(dict(module=module, cases=len(cases), wall_s=round(r.wall_s, 1), note="evaluator (spec -> code)"))
+        self.cov["spec_evaluations"] = self.cov.get("spec_evaluations", 0) + len(cases)
+        return out
+
     # ------------------------------------------------------------------ bookkeeping
     def sample(self, s, cap=6):
         if len(self.cov["samples"]) < cap:
